@@ -218,7 +218,7 @@ def run_docs(drv, seed, n, tmpdir):
         w = elements.World(drv)
         cls = rnd.choice(big if k % 4 else ALL)
         nid = [1000 * (k + 1)]
-        if k % 3 == 2:
+        if k % 2 == 1:
             root = elements.twin_case(w, rnd, nid)     # one class twice, values of different kinds: per-tag / per-class state
         else:
             root = elements.build_tree(w, rnd, cls, rnd.choice([1, 2, 3]), nid, True, True, False)
